@@ -27,6 +27,7 @@ type genProfile struct {
 	postCfg    func(t *rapid.T, c *Cfg) // small adjustments after the generic configuration was drawn
 	compress   bool                     // values and sizes focused on the server-side compression decision (C10)
 	maxKeys    int
+	crash      bool // allow kill-and-restart ops (the history continues on the recovered store)
 }
 
 var asciiKeyChars = []byte("abcdefghijklmnopqrstuvwxyzABCDEFGHIJKLMNOPQRSTUVWXYZ0123456789_-./:;,=+%#&*()[]{}<>|~!$^'\"\\`?@")
@@ -406,6 +407,9 @@ func opKinds(p *genProfile) []string {
 	}
 	if p.gc {
 		kinds = append(kinds, "gc", "gc", "merge")
+	}
+	if p.crash {
+		kinds = append(kinds, "crash", "crash")
 	}
 	return kinds
 }
